@@ -24,6 +24,18 @@ Theorem C04_no_nextline_frames :
      existsb nextline_frame (clean KbdInterrupt (raw_kbd (f :: u) inner)) = false).
 Proof. exact (conj no_nextline_ordinary no_nextline_kbd). Qed.
 
+(** REFUTED for a Ctrl-C that arrives while the prompt of a CALL event is open: a call event reaches
+    WithContext through the global trace function (global_.py -> pluggy -> local_.py), those frames lie
+    between the user's frames and the first WithContext frame and survive the cut.  The KeyboardInterrupt
+    clauses above are therefore PARTIAL: hypothesis added = the trace call is a line/return/exception event
+    (raw_kbd: WithContext's frame directly below the user's). *)
+Definition raw_kbd_call (u mid inner : tb) : tb := Runner :: u ++ mid ++ WithContextM :: inner.
+
+Theorem C04_interrupt_at_call_refuted :
+  exists u mid inner, forallb user_frame u = true /\
+    existsb nextline_frame (clean KbdInterrupt (raw_kbd_call u mid inner)) = true.
+Proof. exists [User; User], [Plugin; Plugin; Plugin], [Plugin; Lib]. vm_compute. auto. Qed.
+
 Theorem C04_commands_do_not_feed_back : forall c pol evs later,
   exists rest_p rest_c,
     Bdb.Model.prompts c pol (evs ++ later) = Bdb.Model.prompts c pol evs ++ rest_p /\
@@ -40,3 +52,4 @@ Proof. vm_compute. repeat split; reflexivity. Qed.
 Print Assumptions C04_traceback_user_only.
 Print Assumptions C04_no_nextline_frames.
 Print Assumptions C04_commands_do_not_feed_back.
+Print Assumptions C04_interrupt_at_call_refuted.
